@@ -285,9 +285,56 @@ RETRY_CONFIGS = [{"smt.random_seed": 11}, {"smt.mbqi": False}, {"smt.random_seed
                  {"smt.mbqi": False, "smt.random_seed": 5}]
 
 
+_SHARED = None
+
+
+def _solve_group(nm):
+    """All VCs of one named obligation -> (result dict, failure reason|None)."""
+    eng, groups, timeout, fast = _SHARED
+    status, tt, detail, fr = "proved", 0.0, "", None
+    if nm.endswith(":cover-false"):
+        # expected NOT to be provable: `unsat` here means contradictory assumptions
+        # (a single path on which the loop body is unreachable is fine: vacuous only if ALL are)
+        bad = True
+        for o in groups[nm]:
+            r, dt, _, sv = _solve(eng, o, min(timeout, 3000))
+            tt += dt
+            if r != "unsat":
+                bad = False
+                break
+        return ({"name": nm, "status": "error" if bad else "proved", "time_s": tt, "n_vcs": len(groups[nm]),
+                 "detail": "the assumptions at this loop head are contradictory: every obligation below it is vacuous"
+                 if bad else "", "solver": "z3", "model": None, "smt2": ""}, None)
+    for o in groups[nm]:
+        r, dt, _, sv = _solve(eng, o, timeout)
+        tt += dt
+        if r != "unsat" and not fast:
+            # quantified queries are sensitive to incidental naming and load:
+            # `unsat` from any configuration is a proof, so retry before giving up
+            for cfg in RETRY_CONFIGS + [{"timeout": timeout * 5}]:
+                cfg = dict(cfg)
+                r, dt, _, sv = _solve(eng, o, cfg.pop("timeout", timeout), cfg=cfg)
+                tt += dt
+                if r == "unsat":
+                    break
+        if r != "unsat":
+            status = "open"
+            detail = o.detail
+            try:
+                why = sv.reason_unknown() if r == "unknown" else ""
+            except Exception:
+                why = ""
+            fr = r + (" (%s)" % why if why else "")
+            break
+    return ({"name": nm, "status": status, "time_s": tt, "n_vcs": len(groups[nm]),
+             "detail": detail, "solver": "z3", "model": None, "smt2": ""}, fr)
+
+
 def verify_one(args):
-    """Worker: all obligations of one function.  Returns plain dicts."""
-    name, tier, mode = args
+    """Worker: all obligations of one function (optionally: of some of its
+    parameter-shape cases).  Returns plain dicts."""
+    name, tier, mode = args[:3]
+    cases = args[3] if len(args) > 3 else None
     t0 = time.time()
     try:
         import z3
@@ -298,6 +345,9 @@ def verify_one(args):
         add_lemma_programs(sources, contracts)
         con = contracts[name]
         timeout = 6000 if tier == "quick" else 60000
+        fast = bool(os.environ.get("PYVC_FAST"))      # development: one attempt, short budget, no refutation
+        if fast:
+            timeout = int(os.environ.get("PYVC_FAST")) * 1000
         eng = Verifier(sources, classes, contracts, ground=None, mode=mode)
         eng.covers = []
         if con.lemma is not None:
@@ -318,7 +368,7 @@ def verify_one(args):
         if con.name not in sources:
             return {"function": name, "error": "function %s not found in the source "
                     "(renamed or deleted?)" % name, "obls": []}
-        eng.verify_function(con)
+        eng.verify_function(con, cases=cases)
         groups = {}
         for o in eng.obls:
             groups.setdefault(o.name, []).append(o)
@@ -326,34 +376,23 @@ def verify_one(args):
         stime = eng.solver_time
         failed = {}
         retried = []
-        for nm, obls in groups.items():
-            status, tt, detail = "proved", 0.0, ""
-            for o in obls:
-                r, dt, _, sv = _solve(eng, o, timeout)
-                tt += dt
-                if r != "unsat":
-                    # quantified queries are sensitive to incidental naming and load:
-                    # `unsat` from any configuration is a proof, so retry before giving up
-                    for cfg in RETRY_CONFIGS + [{"timeout": timeout * 5}]:
-                        cfg = dict(cfg)
-                        r, dt, _, sv = _solve(eng, o, cfg.pop("timeout", timeout), cfg=cfg)
-                        tt += dt
-                        if r == "unsat":
-                            retried.append(o.name)
-                            break
-                if r != "unsat":
-                    status = "open"
-                    detail = o.detail
-                    try:
-                        why = sv.reason_unknown() if r == "unknown" else ""
-                    except Exception:
-                        why = ""
-                    failed[nm] = r + (" (%s)" % why if why else "")
-                    break
-            stime += tt
-            res.append({"name": nm, "status": status, "time_s": tt, "n_vcs": len(obls),
-                        "detail": detail, "solver": "z3", "model": None,
-                        "smt2": ""})
+        global _SHARED
+        _SHARED = (eng, groups, timeout, fast)
+        names = list(groups)
+        inner = int(os.environ.get("PYVC_INNER", "1"))
+        if inner > 1 and len(names) > 40:
+            # many obligations in one function: solve them in forked children
+            # (the z3 terms are inherited by fork; results are plain dicts)
+            mp = multiprocessing.get_context("fork")
+            with mp.Pool(inner) as pool:
+                solved = pool.map(_solve_group, names, chunksize=max(1, len(names) // (inner * 8)))
+        else:
+            solved = [_solve_group(nm) for nm in names]
+        for x, fr in solved:
+            res.append(x)
+            stime += x["time_s"]
+            if fr is not None:
+                failed[x["name"]] = fr
         # sample smt2 of the first obligation
         if eng.obls:
             s = z3.Solver()
@@ -363,7 +402,7 @@ def verify_one(args):
         # cover queries: every precondition must be satisfiable
         gc = Verifier(sources, classes, contracts, ground=2, mode=mode)
         gc.covers = []
-        gc.verify_function(con, cover_only=True)
+        gc.verify_function(con, cover_only=True, cases=cases)
         for cname, pc in gc.covers:
             s = z3.Solver()
             s.set("timeout", timeout)
@@ -376,6 +415,13 @@ def verify_one(args):
                         "precondition not satisfiable (%s): vacuous contract" % r,
                         "smt2": ""})
         # refutation mode for what is still open
+        if failed and fast:
+            for nm, r in failed.items():
+                for x in res:
+                    if x["name"] == nm:
+                        x["status"] = "unknown"
+                        x["detail"] = "FAST: z3 %s; %s" % (r, x["detail"])
+            failed = {}
         if failed:
             for N in (2, 3):
                 if not failed:
@@ -383,7 +429,7 @@ def verify_one(args):
                 g = Verifier(sources, classes, contracts, ground=N, mode=mode)
                 g.covers = []
                 try:
-                    g.verify_function(con)
+                    g.verify_function(con, cases=cases)
                 except Unsupported as e:
                     break
                 for o in g.obls:
@@ -430,13 +476,54 @@ def verify(targets, tier="quick", mode="normal", tags=None, jobs=16):
     from lib.common import Obligation
     from .engine import ASSUMPTIONS, TRUSTED
     ctx = multiprocessing.get_context("fork")
-    work = [(t, tier, mode) for t in targets]
+    cons = all_contracts()
+    work = []
+    for t in targets:
+        n = cons[t].ghost.get("split_cases") if t in cons else None
+        if n:
+            # one work item per group of parameter-shape cases (own process each)
+            import itertools as _it
+            alts = [v if isinstance(v, list) else [v] for v in cons[t].params.values()]
+            total = len(list(_it.product(*alts)))
+            only = os.environ.get("PYVC_CASES")          # development: a subset of the cases
+            for i in range(0, total, n):
+                cs = set(range(i, min(total, i + n)))
+                if only:
+                    cs &= {int(x) for x in only.split(",")}
+                if cs:
+                    work.append((t, tier, mode, cs))
+        else:
+            work.append((t, tier, mode))
+    os.environ["PYVC_INNER"] = str(max(1, min(8, 16 // max(1, len(work)))))
     out = []
     with cf.ProcessPoolExecutor(max_workers=min(jobs, max(1, len(work))),
                                 mp_context=ctx) as ex:
         out = list(ex.map(verify_one, work))
     obligations, functions, errors = [], [], []
     st = 0.0
+    merged = {}
+    for r in out:
+        m = merged.get(r["function"])
+        if m is None:
+            merged[r["function"]] = r
+            continue
+        if r.get("error") and not m.get("error"):
+            m["error"] = r["error"]
+        rank = {"proved": 0, "unknown": 1, "open": 1, "error": 2, "refuted": 3}
+        byname = {o["name"]: o for o in m["obls"]}
+        for o in r["obls"]:
+            if o["name"] in byname:
+                b = byname[o["name"]]
+                b["time_s"] += o["time_s"]
+                b["n_vcs"] += o["n_vcs"]
+                if rank.get(o["status"], 2) > rank.get(b["status"], 2):
+                    b.update(status=o["status"], detail=o["detail"], model=o["model"])
+            else:
+                m["obls"].append(o)
+                byname[o["name"]] = o
+        m["solver_time"] = m.get("solver_time", 0.0) + r.get("solver_time", 0.0)
+        m["paths"] = m.get("paths", 0) + r.get("paths", 0)
+    out = list(merged.values())
     for r in out:
         if r["error"]:
             obligations.append(Obligation("pyvc", r["function"], r["function"] + ":engine",
